@@ -210,6 +210,36 @@ func backupTrace(en *Env, cfg h.Cfg, merges bool) int {
 		}
 		en.Drop(b1)
 	}
+	// Backup as the very first call after the restart that adopted a merge of several output files: the files
+	// indexed from the hint file have not been read (or, under mmap, touched at all) when they are copied
+	if !e.Dead && e.DB != nil && merges {
+		c2 := cfg
+		if c2.Limit > 3000 {
+			c2.Limit = 3000
+		}
+		if e.Close() != "ok" || e.Open(c2) != "ok" {
+			return backups
+		}
+		for k := 1; k <= nkeys && !e.Dead; k++ {
+			id, _ := vs.New(700 + r.Intn(600))
+			e.Put(k, id)
+		}
+		if !e.Dead && e.Merge() == "ok" && !e.Dead && e.Close() == "ok" && e.Open(c2) == "ok" {
+			b2 := en.FreshDir()
+			name := h.Guard(h.CallTimeout, func() error { return e.DB.Backup(b2) })
+			e.T.Emit(h.Ev{"ev": "op", "op": "Backup", "k": 0, "v": 0, "n": 0, "a": 0, "res": 0, "err": name})
+			backups++
+			if name == "ok" {
+				h.WithoutCapture(func() { dumpCopy(e, b2, c2) })
+			}
+			en.Drop(b2)
+			e.Dump()
+			if name == "panic" || name == "stuck" || e.Close() != "ok" || e.Open(cfg) != "ok" {
+				return backups
+			}
+			e.Dump()
+		}
+	}
 	// several backups requested at the same instant (no writer is active): each copy must open to the model
 	if !e.Dead && e.DB != nil && !(cfg.IO == "mmap" && merges) {
 		const k = 3
